@@ -105,7 +105,17 @@ def class_view(ctx, m, c, pns, dcs=()):
             sub = ctx.find_subclass(c, tq)
             if sub is not None:
                 xsi[tq] = sid(sub, pns)                 # XmlContext.fetch builds the subclass with the same parent_ns
+    # own fields that replace an inherited COMPOUND field of the same Python name (dataclass inheritance is by field name)
+    shadows = []
+    for n in c.__dict__.get("__annotations__", {}):
+        own = c.__dataclass_fields__.get(n)
+        for b in c.__mro__[1:]:
+            bf = getattr(b, "__dataclass_fields__", {}).get(n) if dataclasses.is_dataclass(b) else None
+            if bf is not None and own is not None and bf.metadata.get("type") == "Elements" and own.metadata.get("type") != "Elements":
+                shadows.append(n)
+                break
     return {"id": sid(c, pns), "class": cid(c), "pns": pns, "xsi": xsi, "qname": m.qname, "target_qname": m.target_qname,
+            "shadows_compound": shadows,
             "nillable": bool(m.nillable), "mixed_content": bool(m.mixed_content),
             "bases": [cid(b) for b in c.__mro__[1:] if dataclasses.is_dataclass(b)],
             "elements": [var_view(v, c, m.namespace) for v in m.get_element_vars()],
